@@ -204,6 +204,84 @@ var harnessFiles = map[string]bool{"/cases.txt": true, "/impl.txt": true, "/orac
 var physWd = wdDir
 var wdGone = false
 
+// scan walks the whole tree once and returns both the snapshot of everything that is not below the
+// working directory (oracle) and the listing of the whole tree (correspondence)
+func scan() (map[string]objInfo, string) {
+	out := map[string]objInfo{}
+	var items []string
+	var rec func(p string, inWd bool)
+	rec = func(p string, inWd bool) {
+		fi, err := os.Lstat(p)
+		if err != nil {
+			return
+		}
+		var o objInfo
+		o.Mode = uint32(fi.Mode().Perm())
+		if st, ok := fi.Sys().(*syscall.Stat_t); ok {
+			o.Ino = st.Ino
+		}
+		hp := hex.EncodeToString([]byte(p))
+		st := ""
+		if !(p == wdDir || strings.HasPrefix(p, wdDir+"/")) {
+			if k := stampOf(fi.ModTime()); k > 0 {
+				st = "@" + strconv.Itoa(k)
+			}
+		}
+		switch {
+		case fi.Mode()&os.ModeSymlink != 0:
+			o.Type = "l"
+			o.Target, _ = os.Readlink(p)
+			items = append(items, hp+":l"+common.Hex(o.Target))
+		case fi.IsDir():
+			o.Type = "d"
+			if p != "/" {
+				items = append(items, fmt.Sprintf("%s:d%d%s", hp, fi.Mode().Perm(), st))
+			}
+		case fi.Mode().IsRegular():
+			o.Type = "f"
+			o.Size = fi.Size()
+			b, _ := os.ReadFile(p)
+			o.Content = string(b)
+			if _, err := strconv.Atoi(string(b)); err == nil {
+				items = append(items, fmt.Sprintf("%s:f%sm%d%s", hp, string(b), fi.Mode().Perm(), st))
+			} else {
+				items = append(items, hp+":f?"+hex.EncodeToString(b))
+			}
+		default:
+			o.Type = "o"
+			items = append(items, hp+":o")
+		}
+		o.Mtime = fi.ModTime().UnixNano()
+		record := !inWd && p != "/" && !(p == physWd && wdGone)
+		if wdGone && p == path.Dir(physWd) {
+			o.Mtime = 0 // the store creates its working directory: a new entry in the parent
+		}
+		if p == physWd {
+			// the working directory's own attributes are the store's; its entry in the
+			// parent directory (existence, type, identity) is not
+			o.Mode = 0
+			o.Mtime = 0
+		}
+		if record {
+			out[p] = o
+		}
+		if o.Type == "d" {
+			des, _ := os.ReadDir(p)
+			for _, de := range des {
+				c := path.Join(p, de.Name())
+				if harnessFiles[c] {
+					continue
+				}
+				rec(c, inWd || p == physWd)
+			}
+		}
+	}
+	rec("/", false)
+	key := func(s string) string { return s[:strings.IndexByte(s, ':')] }
+	sort.Slice(items, func(i, j int) bool { return key(items[i]) < key(items[j]) })
+	return out, strings.Join(items, ",")
+}
+
 func snapshotOutside() map[string]objInfo {
 	out := map[string]objInfo{}
 	var rec func(p string)
@@ -606,6 +684,7 @@ func runCase(c Case) {
 	nontrivial := false
 	var before map[string]objInfo
 	hasManifest := false
+	lastListing := ""
 	for i, p := range c.Pushes {
 		var blob []byte
 		ann := map[string]string{ocispec.AnnotationTitle: p.Title}
@@ -646,7 +725,7 @@ func runCase(c Case) {
 		}
 		desc := ocispec.Descriptor{MediaType: mediaType, Digest: dgst, Size: int64(len(blob)), Annotations: ann}
 		if before == nil {
-			before = snapshotOutside()
+			before, _ = scan()
 		}
 		// watchdog: a push that does not return within 30 s is reported (with its replay), not waited for
 		errc := make(chan error, 1)
@@ -660,7 +739,8 @@ func runCase(c Case) {
 			run.Finish()
 			os.Exit(0)
 		}
-		after := snapshotOutside()
+		after, lst := scan()
+		lastListing = lst
 		if err == nil {
 			verdicts += "O"
 			nontrivial = true
@@ -668,7 +748,7 @@ func runCase(c Case) {
 			verdicts += "E"
 		}
 		// the whole tree after every push (digest), not only at the end
-		sum := md5.Sum([]byte(listing()))
+		sum := md5.Sum([]byte(lst))
 		steps += verdicts[len(verdicts)-1:] + hex.EncodeToString(sum[:4])
 		// oracle 1: nothing outside the working directory changed
 		if kind, msg := diffSnap(before, after); kind != "" {
@@ -717,7 +797,10 @@ func runCase(c Case) {
 	}
 	os.Chdir("/")
 	store.Close()
-	obs := steps + "|" + listing()
+	if lastListing == "" {
+		lastListing = listing()
+	}
+	obs := steps + "|" + lastListing
 	line := modelLine(c, modelCfg)
 	run.Case(id, line, obs)
 	run.Count("pushes=" + strconv.Itoa(len(c.Pushes)))
